@@ -64,6 +64,11 @@ impl Property for C07CancelAll {
             //  senders that raced with its removal [known finding R8]: there the streams are dropped after the run only)
             .prop_map(|mut c| { if c.kind.waits_when_full() { for k in c.consumers.iter_mut() { k.drop_on_end = false; } } c }).boxed()
     }
+    fn decode(&self, u: &mut arbitrary::Unstructured<'_>) -> Option<ChanCase> {
+        let mut c = crate::props::uni::decode_chan(u, &Gen { kinds: &ALL_KINDS, max_streams: &[1, 2, 4], buffers: &[2, 4, 8], max_producers: 2, max_ops: 3, max_consumers: 3, retry: false, fresh_wakers: true, prefill: true, canceller: true, drop_on_end: true, ..Default::default() })?;
+        if c.kind.waits_when_full() { for k in c.consumers.iter_mut() { k.drop_on_end = false; } }
+        Some(c)
+    }
     fn cases(&self, tier: Tier) -> u32 { match tier { Tier::Quick => 6_000, Tier::Thorough => 120_000 } }
     fn run(&self, case: &ChanCase) -> RunReport {
         let run = execute(case, Epilogue { drain: true, recreate_probe: true, ..Default::default() });
@@ -103,6 +108,7 @@ impl Property for C16Retry {
             .prop_map(|mut c| { for cons in c.consumers.iter_mut() { cons.hold = cons.hold.max(1); } c.prefill = c.prefill.max(c.buffer - 1); uni::sanitize(c) })
             .boxed()
     }
+    fn decode(&self, u: &mut arbitrary::Unstructured<'_>) -> Option<ChanCase> { crate::props::uni::decode_chan(u, &Gen { kinds: &UNI_KINDS, max_streams: &[1, 2], buffers: &[2, 4], max_producers: 3, max_ops: 3, max_consumers: 1, retry: true, prefill: true, origins: true, ..Default::default() }) }
     fn cases(&self, tier: Tier) -> u32 { match tier { Tier::Quick => 5_000, Tier::Thorough => 100_000 } }
     fn run(&self, case: &ChanCase) -> RunReport {
         let run = execute(case, Epilogue { drain: true, capacity_probe: true, ..Default::default() });
@@ -296,6 +302,7 @@ impl Property for C17Churn {
             })
             .boxed()
     }
+    fn decode(&self, u: &mut arbitrary::Unstructured<'_>) -> Option<ChanCase> { crate::props::uni::decode_chan(u, &Gen { kinds: &MULTI_KINDS, max_streams: &[4], buffers: &[8], max_producers: 1, max_ops: 6, max_consumers: 4, min_consumers: 3, churn: true, ..Default::default() }) }
     fn cases(&self, tier: Tier) -> u32 { match tier { Tier::Quick => 6_000, Tier::Thorough => 120_000 } }
     fn run(&self, case: &ChanCase) -> RunReport {
         let run = execute(case, Epilogue { drain: true, capacity_probe: case.kind.is_ogre_arc(), ..Default::default() });
@@ -450,6 +457,7 @@ impl Property for C06EndAll {
     fn strategy(&self, _tier: Tier) -> BoxedStrategy<ChanCase> {
         case_strategy(Gen { kinds: &ALL_KINDS, max_streams: &[1, 2, 4], buffers: &[2, 4, 8], max_producers: 2, max_ops: 3, max_consumers: 3, retry: true, fresh_wakers: false, prefill: true, origins: true, end_all: true, ..Default::default() })
     }
+    fn decode(&self, u: &mut arbitrary::Unstructured<'_>) -> Option<ChanCase> { crate::props::uni::decode_chan(u, &Gen { kinds: &ALL_KINDS, max_streams: &[1, 2, 4], buffers: &[2, 4, 8], max_producers: 2, max_ops: 3, max_consumers: 3, retry: true, fresh_wakers: false, prefill: true, origins: true, end_all: true, ..Default::default() }) }
     fn cases(&self, tier: Tier) -> u32 { match tier { Tier::Quick => 4_000, Tier::Thorough => 80_000 } }
     fn run(&self, case: &ChanCase) -> RunReport {
         let run = execute(case, Epilogue { drain: true, ..Default::default() });
@@ -533,6 +541,7 @@ impl Property for C07EndOne {
     fn strategy(&self, _tier: Tier) -> BoxedStrategy<ChanCase> {
         case_strategy(Gen { kinds: &ALL_KINDS, max_streams: &[1, 2, 4], buffers: &[2, 4, 8], max_producers: 2, max_ops: 3, max_consumers: 3, retry: true, fresh_wakers: true, prefill: true, origins: true, end_one: true, ..Default::default() })
     }
+    fn decode(&self, u: &mut arbitrary::Unstructured<'_>) -> Option<ChanCase> { crate::props::uni::decode_chan(u, &Gen { kinds: &ALL_KINDS, max_streams: &[1, 2, 4], buffers: &[2, 4, 8], max_producers: 2, max_ops: 3, max_consumers: 3, retry: true, fresh_wakers: true, prefill: true, origins: true, end_one: true, ..Default::default() }) }
     fn cases(&self, tier: Tier) -> u32 { match tier { Tier::Quick => 4_000, Tier::Thorough => 80_000 } }
     fn run(&self, case: &ChanCase) -> RunReport {
         let run = execute(case, Epilogue { drain: true, ..Default::default() });
@@ -569,6 +578,7 @@ impl Property for C08Sched {
     fn strategy(&self, _tier: Tier) -> BoxedStrategy<ChanCase> {
         case_strategy(Gen { kinds: &RESERVE_KINDS, max_streams: &[1, 2], buffers: &[2, 4, 8], max_producers: 1, max_ops: 8, max_consumers: 2, retry: false, origins: true, prefill: true, reserve_ops: true, ..Default::default() })
     }
+    fn decode(&self, u: &mut arbitrary::Unstructured<'_>) -> Option<ChanCase> { crate::props::uni::decode_chan(u, &Gen { kinds: &RESERVE_KINDS, max_streams: &[1, 2], buffers: &[2, 4, 8], max_producers: 1, max_ops: 8, max_consumers: 2, retry: false, origins: true, prefill: true, reserve_ops: true, ..Default::default() }) }
     fn cases(&self, tier: Tier) -> u32 { match tier { Tier::Quick => 5_000, Tier::Thorough => 100_000 } }
     fn run(&self, case: &ChanCase) -> RunReport {
         let run = execute(case, Epilogue { drain: true, capacity_probe: true, ..Default::default() });
